@@ -292,7 +292,7 @@ func init() {
 	for _, n := range []string{"nondetString", "nondetBool", "nondetInt", "nondetIntRange", "nondetRegexp", "nondetPred", "nondetURLPred",
 		"nondetRewriter", "nondetError", "verifAssume", "verifAssert", "verifReach", "verifProvenance", "verifFreeze", "verifNote",
 		"verifNoteBool", "verifNoteInt", "verifMatch", "verifHasToken", "verifCut", "verifIsTokStr", "verifLower", "verifURLHost", "verifURLScheme", "verifURLOk", "verifURLNorm",
-		"verifEffects", "verifSameObject"} {
+		"verifEffects", "verifSameObject", "verifWrite", "verifWriteFailed", "verifOr", "verifAnd", "verifImplies", "verifCurrentToken", "verifIte"} {
 		intrinsicNames[n] = true
 	}
 }
@@ -438,6 +438,40 @@ func (in *Interp) intrinsic(st *State, fr *Frame, name string, args []Value, cc 
 			return one(TupleV{nt, smt.True})
 		}
 		return one(TupleV{in.zero(tokT), smt.False})
+	case "verifWrite", "verifWriteFailed":
+		s := termOf(args[0])
+		failed := name == "verifWriteFailed"
+		return []Alt{{Eff: func(st *State) { st.Writes = append(st.Writes, Write{S: s, Kind: "WriteString", Failed: failed}) }}}
+	case "verifOr":
+		return one(smt.Or(termOf(args[0]), termOf(args[1])))
+	case "verifAnd":
+		return one(smt.And(termOf(args[0]), termOf(args[1])))
+	case "verifImplies":
+		return one(smt.Implies(termOf(args[0]), termOf(args[1])))
+	case "verifCurrentToken":
+		tokT := cc.Signature().Results().At(0).Type()
+		z := in.zero(tokT).(*StructV)
+		t := &StructV{F: append([]Value(nil), z.F...)}
+		if len(st.Tokens) == 0 {
+			return one(t)
+		}
+		ti := st.Tokens[len(st.Tokens)-1]
+		t.F[0] = smt.IntC(int64(tokenKindCode[ti.Kind]))
+		if ti.Data != nil {
+			t.F[2] = ti.Data
+		}
+		if len(ti.Keys) > 0 {
+			var attrs []Value
+			for i := range ti.Keys {
+				attrs = append(attrs, &StructV{F: []Value{smt.StrC(""), ti.Keys[i], ti.Vals[i]}})
+			}
+			return []Alt{effRet(func(st *State) Value {
+				t2 := &StructV{F: append([]Value(nil), t.F...)}
+				t2.F[3] = newSlice(in, st, attrs)
+				return t2
+			})}
+		}
+		return one(t)
 	case "verifSameObject":
 		return one(smt.BoolC(sameObject(args[0], args[1])))
 	}
